@@ -169,7 +169,8 @@ end
 def showPrim : Prim → String
   | .pushFrame => "pushFrame" | .popFrame => "popFrame" | .pushBuffer => "pushBuffer"
   | .popBuffer => "popBuffer" | .popBufferAndWriter => "popBufferAndWriter" | .pushWriter => "pushWriter"
-  | .getWriter => "getWriter" | .clearNextCaller => "clearNextCaller" | .loopExit => "loopExit"
+  | .getWriter => "getWriter" | .saveNextCaller => "saveNextCaller"
+  | .restoreNextCaller => "restoreNextCaller" | .loopExit => "loopExit"
 
 def showStmt : Stmt → String
   | .skip => "skip"
